@@ -174,12 +174,16 @@ class ConveyorBelt(Edge):
         print(f"T={self.env.now:.2f}: {self.id }:put: putting item {item_to_put[0].id} on belt with delay {item_to_put[1]} {self.state}")
         return_val = self.belt.put(event, item_to_put)
         self._conveyor_stats_collector()
+        # the wake-up events are one-shot: they stay triggered until the state machine has handled and
+        # re-armed them, so a second put (or get) before that must not trigger them again
         if len(self.belt.items)==1 and self.state=="IDLE_STATE":
-            self.item_arrival_event.succeed()
+            if not self.item_arrival_event.triggered:
+                self.item_arrival_event.succeed()
             print(f"T={self.env.now:.2f}: {self.id }:put: item arrival event succeeded")
         else: 
             event= self.env.event()
-            self.put_events_available.succeed()
+            if not self.put_events_available.triggered:
+                self.put_events_available.succeed()
             if self.accumulating==0:
                 print(f"T={self.env.now:.2f}: {self.id }: attempting to put an item while non accumulating mode on and {self.state} and {self.belt.noaccumulation_mode_on}")
             print(f"T={self.env.now:.2f}: {self.id }:put: item arrival event else succeeded")
@@ -217,7 +221,8 @@ class ConveyorBelt(Edge):
         item.conveyor_exit_time = self.env.now
         self._conveyor_stats_collector()
         event= self.env.event()
-        self.get_events_available.succeed()
+        if not self.get_events_available.triggered:
+            self.get_events_available.succeed()
         print(f"{self.env.now} {item.id} time in conveyor {item.conveyor_entry_time} and {item.conveyor_exit_time} - time spend in conveyor {item.conveyor_exit_time - item.conveyor_entry_time if item.conveyor_exit_time and item.conveyor_entry_time else 'N/A'}")
         return item
 
